@@ -543,7 +543,11 @@ def main():
                     and is_xy(b.left, b.comparators[0]):
                 e = "Bin " + cmpops[type(b.ops[0])]
             elif isinstance(b, ast.BoolOp) and len(b.values) == 2 and is_xy(b.values[0], b.values[1]):
-                e = "Bin " + ("OpAnd" if isinstance(b.op, ast.And) else "OpOr")
+                e = "Bin " + ("OpAnd" if isinstance(b.op, ast.And) else "OpOr")     # returns an operand
+            elif isinstance(b, ast.Call) and isinstance(b.func, ast.Name) and b.func.id == "bool" and len(b.args) == 1 \
+                    and not b.keywords and isinstance(b.args[0], ast.BoolOp) and len(b.args[0].values) == 2 \
+                    and is_xy(b.args[0].values[0], b.args[0].values[1]):
+                e = "Bin " + ("OpLAnd" if isinstance(b.args[0].op, ast.And) else "OpLOr")   # bool(x and y)
         elif len(ps) == 1:
             if isinstance(b, ast.UnaryOp) and type(b.op) in unops and isinstance(b.operand, ast.Name) \
                     and b.operand.id == ps[0]:
